@@ -146,7 +146,7 @@ func ParseContractFile(path string) (*ContractFile, error) {
 			}
 			switch kind {
 			case "requires", "ensures", "modifies", "invariant", "decreases", "local", "terminates", "inline",
-				"recovers", "nopanic", "fresh", "lemma", "assert", "pure", "split", "appends", "appendsAll", "copies", "mapStore", "mapDelete", "opaque", "panics", "trusted", "variant", "unroll", "calls_only", "lock", "ghost", "known":
+				"recovers", "nopanic", "fresh", "lemma", "assert", "assume", "pure", "split", "appends", "appendsAll", "copies", "mapStore", "mapDelete", "opaque", "panics", "trusted", "variant", "unroll", "calls_only", "lock", "ghost", "known":
 				cl.Kind = kind
 				cl.Text = rest
 				cur.Clauses = append(cur.Clauses, cl)
@@ -473,12 +473,16 @@ func (cf *ContractFile) Generate() (string, error) {
 			cl := &fc.Clauses[ci]
 			var stmt string
 			switch cl.Kind {
-			case "requires", "ensures", "assert":
+			case "requires", "ensures", "assert", "assume":
 				e, err := RewriteExpr(cl.Text)
 				if err != nil {
 					return "", fmt.Errorf("%s:%d: %v", fc.File, cl.Line, err)
 				}
-				stmt = fmt.Sprintf("__%s(%s)", cl.Kind, e)
+				k := cl.Kind
+				if k == "assume" {
+					k = "assert"
+				}
+				stmt = fmt.Sprintf("__%s(%s)", k, e)
 			case "invariant":
 				e, err := RewriteExpr(cl.Text)
 				if err != nil {
